@@ -161,3 +161,13 @@ impl<E: Elem> Iterator for ScriptIter<E> {
         h
     }
 }
+
+/// Adaptor that hides the inner iterator's size hint ((0, None)), so that length
+/// pre-checks cannot reject a wrong-length source up front.
+pub struct NoHint<I>(pub I);
+impl<I: Iterator> Iterator for NoHint<I> {
+    type Item = I::Item;
+    fn next(&mut self) -> Option<I::Item> {
+        self.0.next()
+    }
+}
